@@ -228,6 +228,9 @@ func (server *Server) Validate(ctx context.Context, opts ...ValidationOption) (e
 		if !strings.Contains(server.URL, "{"+name+"}") {
 			return errors.New("server has undeclared variables")
 		}
+		if v == nil {
+			return fmt.Errorf("invalid server variable %q: value MUST be an object", name)
+		}
 		if err = v.Validate(ctx); err != nil {
 			return
 		}
